@@ -91,6 +91,45 @@ def body_factory(tier, known):
                     'args': {'branch': 'development/%d.0' % (
                         max(v[0] for v in vs) + 1)}})
                 hist.flags.add('c08_directed_create')
+        hot_ = [b for b in hist.world.hot if b in hist.world.heads()]
+        if hot_ and data.draw(st.integers(0, 2), label='recycle') == 0:
+            # a hotfix branch is archived, created again (legal: its archive
+            # tag has another name than its version), receives a merge and
+            # is deleted a second time: the old archive tag is not on the
+            # new tip
+            from vf.sim.world import AUTHOR, PEER1, PEER2
+            hb = hot_[data.draw(st.integers(0, len(hot_) - 1), label='hb')]
+            for kind_ in ('delete_branch', 'create_branch'):
+                hist.apply({'op': 'admin', 'kind': kind_,
+                            'args': {'branch': hb}})
+                hist.apply({'op': 'drain'})
+            if hb in hist.world.heads() and not hist.violations:
+                hist.apply({'op': 'open_pr', 'src': 'bugfix/TEST-77-hfx',
+                            'dst': hb, 'author': AUTHOR, 'base_back': 0})
+                pr_ = max(hist.world.prs) if hist.world.prs else None
+                if pr_ is not None:
+                    for u in (PEER1, PEER2, AUTHOR):
+                        hist.apply({'op': 'approve', 'pr': pr_, 'user': u})
+                    for _ in range(2):
+                        hist.apply({'op': 'pr_event', 'pr': pr_})
+                        hist.apply({'op': 'report_pr', 'pr': pr_,
+                                    'state': 'SUCCESSFUL'})
+                    hist.apply({'op': 'pr_event', 'pr': pr_})
+                    if hist.world.mode != 'noqueue':
+                        hist.apply({'op': 'report_queue',
+                                    'states': ['SUCCESSFUL']})
+                        for q_ in sorted(
+                                n_ for n_ in hist.world.heads()
+                                if n_.startswith('q/') and
+                                not n_.startswith('q/w/')):
+                            hist.apply({'op': 'commit_event',
+                                        'sel': {'ref': q_}})
+                for kind_ in ('delete_queues', 'delete_branch'):
+                    hist.apply({'op': 'admin', 'kind': kind_,
+                                'args': {'branch': hb}
+                                if kind_ == 'delete_branch' else {}})
+                    hist.apply({'op': 'drain'})
+                hist.flags.add('c08_hotfix_recycled')
         while len(hist.steps) < n + 40 * placed_jobs and not stop and \
                 len(hist.steps) < 400:
             drawn = [pending_delete.pop()] if pending_delete else \
